@@ -212,6 +212,11 @@ func runC01(c *fw.Ctx) {
 		})
 	}
 
+	// ---------- a tracked RESULT is made a leaf of its own (ResetGradContext(true)) before any graph uses it ----------
+	for i := 0; i < c.Pick(600, 12000); i++ {
+		c.Case(func(k *fw.K) { c01Rearmed(k) })
+	}
+
 	// ---------- family 3: deep ladders / fan-out chains (bounded-application clause) ----------
 	depths := []int{8, 16, 24, 32, 48, 64}
 	if !c.Quick() {
@@ -459,6 +464,77 @@ func c01SharedLeaves(k *fw.K) {
 			k.Failf("%s", msg)
 			return
 		}
+	}
+}
+
+// c01Rearmed: h is computed from a tracked leaf a (so it has back edges), then h.ResetGradContext(true) makes it a fresh leaf
+// BEFORE any graph uses it. Graphs built afterwards over a and h treat h as a leaf: the derivative with respect to a does not
+// run through h.
+func c01Rearmed(k *fw.K) {
+	shape := RandShape(k.Rng, 0, 3, 3)
+	av := Shuffled(k.Rng, Unique(k.Rng, shape, 0.2, 1.5))
+	a := rt.MustLeaf(av, true)
+	chain := []ref.Instr{{Op: "exp"}, {Op: "tanh"}, {Op: "scale", F: 1.5}, {Op: "sin"}, {Op: "pow", F: 2}}
+	hv, h := av, a
+	for n := 1 + k.Rng.Intn(3); n > 0; n-- {
+		in := chain[k.Rng.Intn(len(chain))]
+		nv, err := ref.Apply(in, []*ref.T{hv})
+		if err != nil {
+			k.Failf("harness: %v", err)
+			return
+		}
+		nh, err := rt.Exec(in, []tensor.Tensor{h})
+		if err != nil {
+			k.Failf("%s: %v", in.Op, err)
+			return
+		}
+		hv, h = nv, nh
+	}
+	h.ResetGradContext(true)
+	b := &progBuilder{r: k.Rng}
+	la, lh := b.leaf(shape, true), b.leaf(shape, true)
+	copy(b.vals[la].Data, av.Data)
+	copy(b.vals[lh].Data, hv.Data)
+	b.p[la].Data, b.p[lh].Data = b.vals[la].Data, b.vals[lh].Data
+	allowed := []int{la, lh}
+	for len(b.p) < 2+2+k.Rng.Intn(6) {
+		allowed = append(allowed, b.step(allowed)...)
+	}
+	p, root := b.p, len(b.p)-1
+	vals, err := p.Eval()
+	if err != nil {
+		k.Failf("harness: %v", err)
+		return
+	}
+	k.Case = c01case{Family: "a tracked result re-armed as a leaf before use (tensor 1 = f(tensor 0), then ResetGradContext(true))", Prog: p, Roots: []int{root}}
+	k.Key("rearmed/%s/%d-instr", shapeKey(shape), len(p))
+	k.Count("rearmed_interior_cases", 1)
+	ts := make([]tensor.Tensor, len(p))
+	ts[la], ts[lh] = a, h
+	if pn := call(func() {
+		for i := 2; i < len(p) && err == nil; i++ {
+			xs := make([]tensor.Tensor, len(p[i].In))
+			for q, j := range p[i].In {
+				xs[q] = ts[j]
+			}
+			ts[i], err = rt.Exec(p[i], xs)
+		}
+		if err == nil {
+			err = tensor.BackPropagate(ts[root])
+		}
+	}); pn != nil || err != nil {
+		k.Failf("graph over a re-armed result: panic=%v err=%v", pn, err)
+		return
+	}
+	want, scale := p.GradS(vals, root, nil, ref.RuleSum)
+	for _, w := range want {
+		if w != nil && !(maxAbsAll(w) < 1e8) {
+			k.Count("cases_skipped_ill_conditioned", 1)
+			return
+		}
+	}
+	if msg := checkGradsScaled(ts, want, scale, "graph over tensor 0 and a result of tensor 0 that was re-armed as a leaf (tensor 1)"); msg != "" {
+		k.Failf("%s", msg)
 	}
 }
 
